@@ -11,6 +11,7 @@ package checks
 
 import (
 	"fmt"
+	"reflect"
 	"strings"
 
 	"github.com/talostrading/sonic"
@@ -29,6 +30,7 @@ type slotState struct {
 	off      *sonic.SlotOffsetter
 	parked   []parked // save order
 	next     byte
+	ahead    []byte // a packet that arrived in the same read as an earlier one: written into the buffer, not yet committed
 	maxSlots int
 	maxBytes int
 }
@@ -58,7 +60,7 @@ func (s *slotState) key() string {
 	for _, p := range s.parked {
 		fmt.Fprintf(&sb, "%d:%d,", p.seq, len(p.bytes))
 	}
-	sb.WriteByte('|')
+	fmt.Fprintf(&sb, "|ahead%d|", len(s.ahead))
 	if s.seq != nil {
 		sb.WriteString(engine.Dump(s.seq, true))
 	} else {
@@ -74,7 +76,25 @@ func slotViol(sig, format string, a ...any) *engine.Violation {
 	return &engine.Violation{Sig: sig, Msg: fmt.Sprintf(format, a...)}
 }
 
+// bbWritten reads the buffer's written-but-uncommitted bytes (there is no accessor for them) by reflection.
+func bbWritten(b *sonic.ByteBuffer) []byte {
+	v := reflect.ValueOf(b).Elem()
+	ri, wi := int(v.FieldByName("ri").Int()), int(v.FieldByName("wi").Int())
+	data := v.FieldByName("data").Bytes()
+	if ri < 0 || wi > len(data) || ri > wi {
+		return nil
+	}
+	return data[ri:wi]
+}
+
 func (s *slotState) inv() *engine.Violation {
+	// the packet waiting uncommitted behind the save area must survive every discard in front of it (states are
+	// merged by structure, not by buffer content, so this is judged on every transition, here)
+	if s.ahead != nil {
+		if got := bbWritten(s.b); string(got) != string(s.ahead) {
+			return slotViol("slots/uncommitted-packet-disturbed", "a packet of %d bytes %v arrived together with an earlier one and waits uncommitted in the buffer; after this operation the buffer holds %v in its place (%s)", len(s.ahead), s.ahead, got, s.describe())
+		}
+	}
 	var want []byte
 	for _, p := range s.parked {
 		want = append(want, p.bytes...)
@@ -101,15 +121,32 @@ func (s *slotState) describe() string {
 	return sb.String()
 }
 
-// park writes, commits and saves a fresh packet; returns its bytes and raw slot.
+// park writes, commits and saves a fresh packet; returns its bytes and raw slot. If a packet was written ahead (it
+// arrived together with an earlier one and has been sitting uncommitted in the write area while slots were popped
+// and discarded in front of it), that packet is the one parked now.
 func (s *slotState) park(n int) ([]byte, sonic.Slot) {
+	if s.ahead != nil {
+		t := s.ahead
+		s.ahead = nil
+		s.b.Commit(len(t))
+		return t, s.b.Save(len(t))
+	}
 	t := s.fresh(n)
 	s.b.Write(t)
 	s.b.Commit(n)
 	return t, s.b.Save(n)
 }
 
+// writeAhead puts a packet into the buffer's write area without committing it.
+func (s *slotState) writeAhead(n int) {
+	s.ahead = s.fresh(n)
+	s.b.Write(s.ahead)
+}
+
 func (s *slotState) push(seq, n int) *engine.Violation {
+	if s.ahead != nil {
+		n = len(s.ahead)
+	}
 	t, raw := s.park(n)
 	ok, err := s.seq.Push(seq, raw)
 	dup := false
@@ -178,7 +215,8 @@ func (s *slotState) checkAndDiscard(slot sonic.Slot, ix int, what string) *engin
 	return nil
 }
 
-func seqSpec(maxSlots, maxBytes, maxSeq, maxLen int) *engine.BFS[*slotState] {
+func seqSpec(maxSlots, maxBytes, maxSeq, maxLen int, ahead ...bool) *engine.BFS[*slotState] {
+	withAhead := len(ahead) == 0 || ahead[0]
 	type od struct {
 		kind   byte
 		seq, n int
@@ -195,10 +233,14 @@ func seqSpec(maxSlots, maxBytes, maxSeq, maxLen int) *engine.BFS[*slotState] {
 		ops = append(ops, fmt.Sprintf("pop(seq=%d)", seq))
 		ods = append(ods, od{'o', seq, 0})
 	}
+	for n := 1; n <= maxLen && withAhead; n++ {
+		ops = append(ops, fmt.Sprintf("write-ahead(len=%d)", n))
+		ods = append(ods, od{'w', 0, n})
+	}
 	ops = append(ops, "reset")
 	ods = append(ods, od{'r', 0, 0})
 	return &engine.BFS[*slotState]{
-		Name: fmt.Sprintf("seq,maxSlots=%d,maxBytes=%d,maxSeq=%d,maxLen=%d", maxSlots, maxBytes, maxSeq, maxLen),
+		Name: fmt.Sprintf("seq,maxSlots=%d,maxBytes=%d,maxSeq=%d,maxLen=%d,ahead=%v", maxSlots, maxBytes, maxSeq, maxLen, withAhead),
 		New: func() *slotState {
 			return &slotState{b: sonic.NewByteBuffer(), seq: sonic.NewSlotSequencer(maxSlots, maxBytes), maxSlots: maxSlots, maxBytes: maxBytes}
 		},
@@ -210,6 +252,12 @@ func seqSpec(maxSlots, maxBytes, maxSeq, maxLen int) *engine.BFS[*slotState] {
 				return true, s.push(d.seq, d.n)
 			case 'o':
 				return true, s.pop(d.seq)
+			case 'w':
+				if s.ahead != nil {
+					return false, nil
+				}
+				s.writeAhead(d.n)
+				return true, nil
 			}
 			s.seq.Reset()
 			s.b.DiscardAll()
@@ -282,7 +330,7 @@ func c20Specs(tier string) []*engine.BFS[*slotState] {
 		// the shape "byte capacity far above what the slots can hold at once"
 		return []*engine.BFS[*slotState]{seqSpec(3, 6, 4, 3), seqSpec(4, 8, 5, 3), seqSpec(2, 12, 3, 3), seqSpec(3, 9, 3, 4), offSpec(6, 3, 4), offSpec(10, 3, 5)}
 	}
-	return []*engine.BFS[*slotState]{seqSpec(3, 6, 4, 3), seqSpec(2, 10, 3, 4), offSpec(6, 3, 3)}
+	return []*engine.BFS[*slotState]{seqSpec(3, 6, 4, 3), seqSpec(2, 10, 3, 4, false), offSpec(6, 3, 3)}
 }
 
 func C20(tier string) *engine.Report {
